@@ -14,12 +14,12 @@ extends it to all histories.
 namespace Cherab.Props.C16
 open Cherab.Instruments Cherab.Gen.InstrumentEdges
 
-theorem init_total_spectrometer : initTotalB spectrometer = true ∧ initStaticB spectrometer = true := by decide
+theorem init_total_spectrometer : initTotalB spectrometer = true ∧ initStaticB spectrometer = true := by decide +kernel
 theorem init_total_ct : initTotalB czernyTurnerSpectrometer = true ∧ initStaticB czernyTurnerSpectrometer = true := by
-  decide
-theorem init_total_polychromator : initTotalB polychromator = true ∧ initStaticB polychromator = true := by decide
+  decide +kernel
+theorem init_total_polychromator : initTotalB polychromator = true ∧ initStaticB polychromator = true := by decide +kernel
 
-theorem init_total_all : ∀ t ∈ allTables, initTotalB t = true ∧ initStaticB t = true := by decide
+theorem init_total_all : ∀ t ∈ allTables, initTotalB t = true ∧ initStaticB t = true := by decide +kernel
 
 /-- for all histories of calls, on every class (given no excused attribute) -/
 theorem no_attr_error_all : ∀ t ∈ allTables, t.knownUninit = [] → ∀ calls : List Nat,
